@@ -43,6 +43,16 @@ Theorem reopen_any_uri_changes_nothing : forall v st u c,
 Proof. intros v st u c. destruct c as [[n|n]|]; split; reflexivity. Qed.
 Print Assumptions reopen_any_uri_changes_nothing.
 
+(* SEVERAL KEY MANAGERS OVER ONE STORE: going on with another key manager instance — one opened earlier over the same
+   data and still alive, through whichever storage wrapper stack, or a new one — changes nothing and needs no store call:
+   an instance holds nothing a call depends on (`durable` holds across such switches: KSwitch i is an operation like any
+   other in `rest`; the correspondence runs the real calls on up to four long-lived instances over three wrapper stacks) *)
+Theorem switch_instance_changes_nothing : forall v st i c,
+  st_store (fst (step v st (KSwitch i, c))) = st_store st /\ snd (step v st (KSwitch i, c)) = ODone /\
+  fst (snd (step_calls v st (KSwitch i, c))) = [].
+Proof. intros v st i c. destruct c as [[n|n]|]; repeat split; reflexivity. Qed.
+Print Assumptions switch_instance_changes_nothing.
+
 (* an entry changes only through a COMPLETED rotation of its id, which returns the id under which all its keys,
    in order, followed by the new primary key, are stored from then on *)
 Theorem entry_changes_only_by_its_rotation : forall st oc id ks,
